@@ -173,6 +173,14 @@ func genHistory(r *rand.Rand, profile string) History {
 					msgs = append(msgs, genNoise(r))
 				}
 			}
+			// a message whose execution is not modelled travels alone (its transaction's outcome is then
+			// compared only up to "passed the PoA decorators")
+			for _, m := range msgs {
+				if m.Kind == "tree" {
+					msgs = []MsgSpec{m}
+					break
+				}
+			}
 			blk.Txs = append(blk.Txs, TxSpec{Msgs: msgs})
 		}
 		if len(blk.Txs) > 0 || len(blk.Absent) > 0 {
@@ -369,5 +377,8 @@ func fixUnpack(t *Tree) {
 	}
 	if t.Leaf == "poacreate" {
 		t.Leaf = "edit" // a poa create inside a tree needs its own signer; keep trees to one signer
+	}
+	if t.Leaf == "edit" {
+		t.Rate = nil // commission limits are exercised at L3 and through create messages; here: a description-only edit
 	}
 }
